@@ -127,6 +127,10 @@ def call_ext(I: Any, name: str, args: List[Term], kwargs: Dict[str, Term], st: A
     if name == "builtins.str":
         if not args:
             return c("")
+        if len(args) >= 2 or "encoding" in kwargs or "errors" in kwargs:
+            # str(b, encoding[, errors]) is b.decode(encoding[, errors])
+            kw2 = {k: v for k, v in kwargs.items() if k in ("encoding", "errors")}
+            return call_method(I, args[0], "decode", list(args[1:]), kw2, st, ctx, node, awaited)
         return format_value(I, args[0], "", st, ctx, node)
     if name == "builtins.bytes":
         if len(args) == 1 and not kwargs:
@@ -162,6 +166,17 @@ def call_ext(I: Any, name: str, args: List[Term], kwargs: Dict[str, Term], st: A
     if name == "builtins.divmod":
         a, b = args
         return ("tuple", (arith("floordiv", a, b), arith("mod", a, b)))
+    if name == "itertools.batched" and len(args) == 2 and not kwargs:
+        n_ = as_const_int(args[1])
+        sq_ = T.to_seq(args[0]) if _textlike(args[0]) else None
+        if isinstance(n_, int) and n_ > 0 and sq_ is not None:
+            return ("batched", sq_, n_)      # tuples of n consecutive items (bytes as ints, text as characters)
+    if name == "builtins.map" and len(args) == 2 and isinstance(args[1], tuple) and args[1][:1] == ("batched",):
+        f_ = args[0]
+        if f_ == ("builtin", "bytes") and args[1][1][1] in ("b", "raw"):
+            return ("chunks", args[1][1], args[1][2])       # bytes(tuple of the ints of n bytes) is those n bytes
+        if f_[0] == "extmeth" and f_[2] == "join" and is_c(f_[1]) and f_[1][1] == "" and args[1][1][1] == "s":
+            return ("chunks", args[1][1], args[1][2])       # "".join(tuple of n characters) is that text
     if name == "builtins.map":
         return make_map(I, args[0], args[1], st, ctx, node)
     if name == "builtins.filter":
@@ -725,7 +740,10 @@ def short_condition(s: Term, st: Any) -> Optional[Term]:
             src = a[1]
             need = (a[3] + 1) // 2
             if st.minlen.get(src, 0) < need:
-                conds.append(("cmp", "<", ("len", src), c(need)))
+                from .frames import int_bounds_from_guard
+                lo_, _hi = int_bounds_from_guard(list(st.pc), ("len", src))
+                if lo_ is None or lo_ < need:        # (not already excluded by the path's own length guards)
+                    conds.append(("cmp", "<", ("len", src), c(need)))
         if a[0] == "sub" and a[3] is not None and a[3] >= 0:
             src = a[1]
             w = T.sym_width(src) if isinstance(src, tuple) else None
@@ -743,6 +761,14 @@ def length(I: Any, v: Term, st: Any, ctx: Any, node: ast.AST) -> Term:
         w = T.seq_width(s)
         if w is None:
             return ("len", v)
+        if st is not None and w.is_const():
+            # a slice of a byte source that is not known to reach the slice's end has its written width only when
+            # the source is long enough (a truncated reply gives a shorter text)
+            sc = short_condition(s, st)
+            if sc is not None:
+                from .interp import ite, decided_by
+                if decided_by(list(st.pc), sc) is not False:
+                    return ite(sc, ("len", v), length(I, v, None, ctx, node))
         if s[1] == "raw":
             from fractions import Fraction
 
@@ -1004,7 +1030,11 @@ def index_value(I: Any, base: Term, idx: Term, st: Any, ctx: Any, node: ast.AST)
         st.may_raise("KeyError" if typ in ("json", "dict", "any", None) else "IndexError",
                      ("cmp", "not in", idx, ("keysof", base)), where)
         return ("item", base, idx)
-    if base[0] in ("mapobj", "filterobj", "map"):
+    if base[0] == "mapobj" and len(base) == 4 and base[3] == "list":
+        # a list built by a comprehension over a symbolic collection: element idx is the body applied to that element
+        st.may_raise("IndexError", ("cmp", "not in", idx, ("keysof", base)), where)
+        return ("item", base, idx)
+    if base[0] in ("mapobj", "filterobj", "map") and len(base) == 3:
         st.may_raise("TypeError", c(True), where)
         return top("never: subscript of iterator")
     return top(f"subscript of {T.show(base)}")
@@ -1104,7 +1134,44 @@ def membership(I: Any, x: Term, coll: Term, st: Any, ctx: Any, node: ast.AST) ->
     return ("cmp", "in", x, ("tuple", tuple(maybe)))
 
 
+def _builtin_type_of(v: Term, st: Any) -> Optional[str]:
+    if is_c(v):
+        return type(v[1]).__name__
+    t = v[0]
+    if t in ("tuple",):
+        return "tuple"
+    if t in ("clist", "splitlist", "splitrest") or (t == "mapobj" and len(v) == 4 and v[3] == "list"):
+        return "list"
+    if t in ("cset", "condset"):
+        return "set"
+    if t == "cdict":
+        return "dict"
+    if t == "seq":
+        return "str" if v[1] == "s" else "bytes"
+    if t in ("uint", "len", "dec") or (t in ("lin", "app") and is_int_term(v)):
+        return "int"
+    if t == "obj" and st is not None and st.heap[v[1]].cls is None and st.heap[v[1]].kind in ("list", "set", "dict") and not st.heap[v[1]].name.startswith("gen:"):
+        return st.heap[v[1]].kind
+    if t == "sym":
+        if v[2] in ("str", "bytes", "int", "float", "bool"):
+            return v[2]
+        if v[2] == "hex" or (isinstance(v[2], tuple) and v[2] and v[2][0] == "hexw"):
+            return "str"
+        if isinstance(v[2], tuple) and v[2] and v[2][0] in ("set", "list", "int"):
+            return v[2][0]
+    return None
+
+
 def isinstance_cond(I: Any, v: Term, cls: Term, st: Any) -> Term:
+    bnames = None
+    if cls[0] == "builtin":
+        bnames = [cls[1]]
+    elif cls[0] == "tuple" and cls[1] and all(x[0] == "builtin" for x in cls[1]):
+        bnames = [x[1] for x in cls[1]]
+    if bnames is not None and all(b in ("list", "tuple", "set", "dict", "str", "bytes", "int", "float", "bool", "frozenset", "bytearray") for b in bnames):
+        bt = _builtin_type_of(v, st)
+        if bt is not None:
+            return c(bt in bnames or (bt == "bool" and "int" in bnames))
     if v[0] == "obj" and cls[0] == "class":
         ho = st.heap[v[1]]
         if ho.cls is not None:
@@ -1115,6 +1182,10 @@ def isinstance_cond(I: Any, v: Term, cls: Term, st: Any) -> Term:
         return c(False)     # None / a number / a string is not an instance of a repository class
     if v[0] == "sym" and isinstance(v[2], tuple) and v[2] and v[2][0] == "enum" and cls[0] == "class":
         return c(I.prog.cls(v[2][1]) is cls[1])
+    if cls[0] == "class" and ((v[0] == "sym" and (v[2] in ("str", "bytes", "int", "float", "bool", "hex") or (isinstance(v[2], tuple) and v[2] and v[2][0] in ("set", "list", "int", "hexw", "hexbw"))))
+                              or v[0] in ("seq", "tuple", "clist", "cset", "cdict", "uint", "lin", "len")
+                              or (v[0] == "obj" and st is not None and st.heap[v[1]].cls is None and st.heap[v[1]].kind in ("list", "set", "dict") and not st.heap[v[1]].symbolic)):
+        return c(False)     # a builtin container / number / text is not an instance of a repository class
     if v[0] == "lookup" and cls[0] == "class" and v[1] and all(x[0] == "enum" for _, x in v[1]):
         rs = {I.prog.cls(x[1].cls) is cls[1] for _, x in v[1]}
         if len(rs) == 1:
@@ -1153,6 +1224,10 @@ def lambda_norm(I: Any, f: Term, it: Term, st: Any, ctx: Any, node: ast.AST) -> 
 def make_map(I: Any, f: Term, it: Term, st: Any, ctx: Any, node: ast.AST) -> Term:
     if I.iter_items(it, st, ctx, node) is not None:
         return ("mapobj", f, it)
+    if f[0] in ("extmeth", "bound", "func", "partialobj", "biometh") and not (f[0] == "extmeth" and _textlike(f[1])):
+        # a method of an object / a repository function mapped over a collection of unknown length: applied to each
+        # element when the map is iterated (its effects belong to that element), not once to a placeholder
+        return ("lazymap", f, it)
     return ("map", lambda_norm(I, f, it, st, ctx, node), it)
 
 
@@ -1286,13 +1361,20 @@ def str_format(I: Any, tmpl: str, args: List[Term], kwargs: Dict[str, Term], st:
             continue
         if conv:
             return top("format conversion not modelled")
-        if fname == "":
+        # field name: (index | keyword) followed by .attr / [key] accessors
+        import _string
+        try:
+            first_, rest_ = _string.formatter_field_name_split(fname)
+            rest_ = list(rest_)
+        except ValueError:
+            return top("format field name not understood")
+        if first_ == "":
             idx: Any = auto
             auto += 1
-        elif fname.isdigit():
-            idx = int(fname)
+        elif isinstance(first_, int):
+            idx = first_
         else:
-            idx = fname
+            idx = first_
         if isinstance(idx, int):
             if idx >= len(args):
                 st.may_raise("IndexError", c(True), where)
@@ -1303,6 +1385,13 @@ def str_format(I: Any, tmpl: str, args: List[Term], kwargs: Dict[str, Term], st:
                 st.may_raise("KeyError", c(True), where)
                 return top("never: format keyword missing")
             val = kwargs[idx]
+        for is_attr_, key_ in rest_:
+            if is_attr_:
+                val = I.getattr(val, key_, st, ctx, node)
+            else:
+                val = index_value(I, val, c(key_), st, ctx, node)
+            if is_top(val):
+                return val
         spec = spec or ""
         if "{" in spec:
             # nested replacement fields inside the spec: {0:0{1}x}
@@ -1442,6 +1531,14 @@ def call_method(I: Any, recv: Term, name: str, args: List[Term], kwargs: Dict[st
     where = ctx.loc(node)
     from .interp import HeapObj
 
+    if name == "isoformat" and recv[:2] == ("app", "datetime.time") and (args == [c("minutes")] or (not args and kwargs == {"timespec": c("minutes")})):
+        # datetime.time(hour=h, minute=m[, ...]).isoformat("minutes") is '%02d:%02d' % (h, m) (no tzinfo given)
+        kws = {x[1]: x[2] for x in recv[2:] if isinstance(x, tuple) and x[:1] == ("kw",)}
+        if len(kws) == len(recv) - 2 and "hour" in kws and "tzinfo" not in kws and "fold" not in kws:
+            out_ = T.concat(T.concat(format_value(I, kws["hour"], "02d", st, ctx, node), c(":")), format_value(I, kws.get("minute", c(0)), "02d", st, ctx, node))
+            if not is_top(out_):
+                return merge_strftime(out_)
+
     if recv[0] == "ite" and len(recv) == 4 and name in ("format", "decode", "encode", "hex", "upper", "lower", "strip", "rstrip", "lstrip", "ljust", "rjust", "zfill", "join", "split", "get"):
         # a pure method of a two-way choice: the choice of the results (branches the path already decided are dropped)
         from .interp import decided_by, ite
@@ -1535,6 +1632,17 @@ def call_method(I: Any, recv: Term, name: str, args: List[Term], kwargs: Dict[st
                 if is_c(conds[0]) and conds[0][1] is True:
                     return default
                 return ite_pos(conds[0], default, v)
+            if name == "setdefault" and 1 <= len(args) <= 2 and not kwargs:
+                # keys that are not syntactically equal are taken to be different (as for set.add: the rules that rely on
+                # it state what identity means, e.g. C10 R10.3)
+                from .interp import fold_cmp
+                k2 = I.canon_cmp_operand(args[0], st)
+                for k_, v_ in ho.items:
+                    if fold_cmp("==", k2, I.canon_cmp_operand(k_, st)) is True:
+                        return v_
+                dv = args[1] if len(args) > 1 else c(None)
+                ho.items.append((args[0], dv))
+                return dv
             if name == "keys":
                 return ("tuple", tuple(k for k, _ in ho.items))
             if name == "values":
@@ -1572,7 +1680,7 @@ def call_method(I: Any, recv: Term, name: str, args: List[Term], kwargs: Dict[st
                 res = c(None)
             return I.external_call(f"{base}.{name}", args, kwargs, st, ctx, node, awaited, res)
         if typ in ("json", "any", "dict") or (isinstance(typ, tuple) and typ and typ[0] in ("elemof", "set", "list")):
-            if name == "get":
+            if name == "get" and args:
                 return ("item?", recv, args[0], args[1] if len(args) > 1 else c(None))
             if name in ("keys", "values", "items"):
                 return app("." + name, [recv])
@@ -1672,9 +1780,24 @@ def int_to_bytes(I: Any, v: Term, args: List[Term], kwargs: Dict[str, Term], st:
     return r
 
 
+_FOLDABLE_STR_METHODS = {"replace", "zfill", "rjust", "ljust", "center", "upper", "lower", "strip", "lstrip", "rstrip", "title", "capitalize", "swapcase", "removeprefix",
+                         "removesuffix", "count", "find", "rfind", "startswith", "endswith", "isdigit", "isalpha", "isalnum", "partition", "rpartition", "expandtabs", "casefold"}
+
+
 def text_method(I: Any, s: Term, name: str, args: List[Term], kwargs: Dict[str, Term], st: Any, ctx: Any, node: ast.AST) -> Optional[Term]:
     where = ctx.loc(node)
     kind = s[1]
+    if (kind == "s" and name in _FOLDABLE_STR_METHODS and all(a[0] == "L" for a in s[2]) and all(is_c(a) and isinstance(a[1], (str, int, type(None))) and not isinstance(a[1], bool) for a in args)
+            and all(is_c(v) and isinstance(v[1], (str, int, type(None))) for v in kwargs.values())):
+        # constant folding: a pure str method of a literal with literal arguments
+        try:
+            r_ = getattr("".join(a[1] for a in s[2]), name)(*[a[1] for a in args], **{k: v[1] for k, v in kwargs.items()})
+        except Exception:  # noqa: BLE001  (what it raises is left to the unfolded model below)
+            r_ = None
+        if isinstance(r_, (str, int, bool)):
+            return c(r_)
+        if isinstance(r_, (list, tuple)) and all(isinstance(x, str) for x in r_):
+            return ("tuple", tuple(c(x) for x in r_)) if isinstance(r_, tuple) else ("clist", tuple(c(x) for x in r_))
     if name == "format":
         if all(a[0] == "L" for a in s[2]):
             return str_format(I, "".join(a[1] for a in s[2]), args, kwargs, st, ctx, node)
